@@ -457,9 +457,19 @@ type row struct {
 	WRc     int       `json:"w_rc"`
 	L2Out   []string  `json:"l2_out"`
 	L2Rc    int       `json:"l2_rc"`
+	Combos  []combo   `json:"combos"`
 	Fails   []string  `json:"fails"`
 	Class   string    `json:"class,omitempty"`
 	Detail  string    `json:"detail,omitempty"`
+}
+
+// combo: one run with several mode flags on a fresh copy of the tree
+type combo struct {
+	Flags   []string `json:"flags"`
+	Rc      int      `json:"rc"`
+	Listed  []string `json:"listed"`
+	Diffed  []string `json:"diffed"`
+	Written []string `json:"written"` // files whose bytes changed
 }
 
 func splitDiffs(out string) []string {
@@ -635,9 +645,11 @@ func checkOne(scratch string, ti int, fs []gfile, c config, via string, over map
 	if rc0 != wantRc {
 		fail("list0_exit_iff_listed", fmt.Sprintf("rc %d want %d listed %d errors %d", rc0, wantRc, len(wantL), len(errFiles)))
 	}
-	rcl, ll0, _ := runShfmt(root, nil, args("--list=0")...)
-	if rcl != wantRc || !bytes.Equal(ll0, l0) {
-		fail("list0_long_flag", fmt.Sprintf("rc %d want %d", rcl, wantRc))
+	if ti%2 == 0 {
+		rcl, ll0, _ := runShfmt(root, nil, args("--list=0")...)
+		if rcl != wantRc || !bytes.Equal(ll0, l0) {
+			fail("list0_long_flag", fmt.Sprintf("rc %d want %d", rcl, wantRc))
+		}
 	}
 	var got0 []string
 	for _, p := range strings.Split(string(l0), "\x00") {
@@ -715,7 +727,10 @@ func checkOne(scratch string, ti int, fs []gfile, c config, via string, over map
 		fail("list_and_diff_together", fmt.Sprintf("%d names for %d files", nl, len(wantL)))
 	}
 	// ---- stdin with --filename: same bytes as the file would get
-	for _, f := range targets {
+	for i, f := range targets {
+		if i >= 4 && ti < 1000 {
+			break
+		}
 		a := append(append([]string{}, flags...), "--filename", filepath.Join(root, f.Rel))
 		rc, sout, _ := runShfmt(root, f.Src, a...)
 		if isErr[f.Rel] {
@@ -743,6 +758,90 @@ func checkOne(scratch string, ti int, fs []gfile, c config, via string, over map
 			fail("plain_same", fmt.Sprintf("%s rc=%d", f.Rel, rc))
 		}
 	}
+	// ---- combined mode flags, each on a fresh copy of the tree: what is printed, the exit status, and the
+	// state afterwards (every differing file holds its formatted bytes when -w is among the flags; -l then empty)
+	for _, cf := range [][]string{{"-w", "-d"}, {"-l", "-w"}, {"-l", "-w", "-d"}} {
+		name := strings.Join(cf, "")
+		hasW, hasD, hasL := false, false, false
+		for _, f := range cf {
+			hasW = hasW || f == "-w"
+			hasD = hasD || f == "-d"
+			hasL = hasL || f == "-l"
+		}
+		writeTree(root, fs, ec)
+		crc, cout, _ := runShfmt(root, nil, args(cf...)...)
+		co := combo{Flags: cf, Rc: crc}
+		var rest strings.Builder
+		for _, l := range strings.SplitAfter(string(cout), "\n") {
+			if l == "" {
+				continue
+			}
+			if strings.IndexByte(" -+\\@", l[0]) < 0 && !strings.HasPrefix(l, "diff ") {
+				co.Listed = append(co.Listed, strings.TrimSuffix(l, "\n"))
+			} else {
+				rest.WriteString(l)
+			}
+		}
+		sort.Strings(co.Listed)
+		for _, d := range splitDiffs(rest.String()) {
+			_, newN, hs, err := parseDiff(d)
+			if err != nil {
+				fail("combo"+name+"_diff_wellformed", err.Error())
+				continue
+			}
+			co.Diffed = append(co.Diffed, newN)
+			for _, f := range fs {
+				if f.Rel == newN {
+					if res, err := applyHunks(string(f.Src), hs); err != nil || res != string(exp[newN]) {
+						fail("combo"+name+"_diff_yields_formatted", newN)
+					}
+				}
+			}
+		}
+		sort.Strings(co.Diffed)
+		var wantListed, wantDiffed []string
+		if hasL {
+			wantListed = wantL
+		}
+		if hasD {
+			wantDiffed = wantL
+		}
+		if !eqStrs(co.Listed, wantListed) {
+			fail("combo"+name+"_listed", fmt.Sprintf("got %q want %q", co.Listed, wantListed))
+		}
+		if !eqStrs(co.Diffed, wantDiffed) {
+			fail("combo"+name+"_diffed", fmt.Sprintf("got %q want %q", co.Diffed, wantDiffed))
+		}
+		wantC := 0
+		if len(errFiles) > 0 || (len(wantL) > 0 && (hasD || !hasW)) {
+			wantC = 1
+		}
+		if crc != wantC {
+			fail("combo"+name+"_exit", fmt.Sprintf("rc %d want %d", crc, wantC))
+		}
+		for _, f := range fs {
+			got, err := os.ReadFile(filepath.Join(root, f.Rel))
+			want := f.Src
+			if e, ok := exp[f.Rel]; ok && hasW {
+				want = e
+			}
+			if err != nil || !bytes.Equal(got, want) {
+				fail("combo"+name+"_after_state", f.Rel)
+			}
+			if err == nil && !bytes.Equal(got, f.Src) {
+				co.Written = append(co.Written, f.Rel)
+			}
+		}
+		sort.Strings(co.Written)
+		if hasW && len(nonIdem) == 0 && len(langFlip) == 0 {
+			lrc, lo, _ := runShfmt(root, nil, args("-l")...)
+			if got := nonEmptyLines(lo); len(got) > 0 || lrc != wantW0(errFiles) {
+				fail("combo"+name+"_then_list_empty", fmt.Sprintf("%q rc %d", got, lrc))
+			}
+		}
+		rw.Combos = append(rw.Combos, co)
+	}
+	writeTree(root, fs, ec)
 	// ---- -w, then -l
 	rc, _, _ = runShfmt(root, nil, args("-w")...)
 	rw.WRc = rc
@@ -795,6 +894,13 @@ func checkOne(scratch string, ti int, fs []gfile, c config, via string, over map
 		fail("write_then_list_exit", fmt.Sprintf("rc %d want %d", rc, wantW))
 	}
 	return rw
+}
+
+func wantW0(errFiles []string) int {
+	if len(errFiles) > 0 {
+		return 1
+	}
+	return 0
 }
 
 func btoi(b bool) int {
@@ -906,7 +1012,7 @@ var pinned = []struct {
 		"c02_nonidempotent_input", []string{"write_then_list_empty"}, nil},
 	// file mode looks for the shebang in the first 32 bytes only, stdin mode in the whole source
 	{[]gfile{{"x.sh", []byte("#!" + strings.Repeat(" ", 23) + "/bin/shared-thing\na=(1 2)\n"), true}}, config{},
-		"shebang_cut_at_32_bytes", []string{"diff_exit", "exit_iff_listed", "list0_exit_iff_listed", "list0_long_flag", "plain_same", "write_exit", "write_then_list_exit"}, nil},
+		"shebang_cut_at_32_bytes", []string{"combo-l-w-d_exit", "combo-l-w-d_then_list_empty", "combo-l-w_exit", "combo-l-w_then_list_empty", "combo-w-d_exit", "combo-w-d_then_list_empty", "diff_exit", "exit_iff_listed", "list0_exit_iff_listed", "plain_same", "write_exit", "write_then_list_exit"}, nil},
 	// the formatted bytes start with a shebang that the source (leading blanks) did not have: posix instead of bash
 	{[]gfile{{"y.sh", []byte("  #!/bin/sh\n[[ a<b ]]\n"), true}}, config{},
 		"language_redetected_after_format", []string{"write_then_list_empty"}, nil},
